@@ -242,7 +242,21 @@ class ExtMixin:
                 if len(a) == 3:
                     step = a[2]
             return R(Sym(st.fresh_name("range"), "range", lo=lo, hi=hi, step=step, notnone=True))
+        if name == "zip" and len(args) >= 1:
+            seqs = [self.seq_items(x, st) for x in args]
+            if all(s_ is not None for s_ in seqs):
+                n_ = min(len(s_) for s_ in seqs)
+                return R(Seq([Seq([s_[i] for s_ in seqs], "tuple") for i in range(n_)], "tuple"))
+        if name == "reversed" and len(args) == 1:
+            items = self.seq_items(args[0], st)
+            if items is not None:
+                return R(Seq(list(reversed(items)), "tuple"))
         if name == "enumerate" and a:
+            start = const_of(a[1]) if len(a) > 1 else const_of(norm(kw["start"])) if "start" in kw else 0
+            items = self.seq_items(args[0], st)
+            if items is not None and isinstance(start, int) and not (isinstance(args[0], Ref) and args[0].kind in ("list", "bytearray")):
+                # an immutable sequence of known items: enumerated eagerly (a heap list may still grow while it is iterated)
+                return R(Seq([Seq([Const(start + i), x], "tuple") for i, x in enumerate(items)], "tuple"))
             return R(Sym(st.fresh_name("enumerate"), "enumerate", of=a[0], notnone=True))
         if name == "isinstance" and len(a) == 2:
             return R(self.isinstance_of(a[0], a[1], node))
@@ -625,6 +639,39 @@ class ExtMixin:
             if attr == "decode":
                 return [(st, Unknown(ty="str")), (st.fork(), Raised("UnicodeError", node, fr.func))]
         bt = ty_of(base)
+        if attr == "bit_length" and not a and isinstance(base, Const) and isinstance(base.v, int):
+            return R(Const(base.v.bit_length()))
+        if attr == "bit_length" and not a and isinstance(base, BitV) and base.hi == 0:
+            # one path per position of the highest set bit; on each the value is narrowed accordingly (bits above are 0, that bit is 1)
+            outs = []
+            live = [i for i, b in enumerate(base.bits) if b != 0]
+            top = (max(live) + 1) if live else 0
+            cands = []
+            for k in range(0, top + 1):
+                if any(base.bits[i] == 1 for i in range(k, NBITS)):
+                    continue                                   # a bit at or above k is known to be set
+                if k > 0 and base.bits[k - 1] == 0:
+                    continue                                   # the would-be top bit is known to be clear
+                cands.append(k)
+            for j, k in enumerate(cands):
+                s = st if j == len(cands) - 1 else st.fork()
+                if j != len(cands) - 1:
+                    self.budget()
+                bits = tuple((0 if i >= k else (1 if i == k - 1 else b)) for i, b in enumerate(base.bits))
+                nb = norm(BitV(bits, 0, None))
+                self.event(s, fr, "cond", node, (True, (base, Const(k))))
+                tgt = node.func.value if isinstance(node, ast.Call) and isinstance(node.func, ast.Attribute) else None
+                if isinstance(tgt, (ast.Name, ast.Attribute)):
+                    cur = self.get_path_value(tgt, s, fr)
+                    if cur is not None and hasattr(cur, "key") and norm(cur).key() == base.key():
+                        self.set_path_value(tgt, nb, s, fr)
+                        env = s.envs[fr.fid]
+                        for nm, vv in list(env.items()):          # every local that holds the very same value
+                            if hasattr(vv, "key") and not isinstance(vv, Ref) and norm(vv).key() == base.key():
+                                env[nm] = nb
+                outs.append((s, Const(k)))
+            if outs:
+                return outs
         if attr == "index" and a:
             items = self.seq_items(base, st) if not (isinstance(base, Const) and isinstance(base.v, (tuple, list))) else [self.lift(v_, st) for v_ in base.v]
             if items is not None:
